@@ -25,7 +25,7 @@ sys.path.insert(0, HERE)
 
 from pyvc import spec as S   # noqa: E402
 
-SPEC_MODULES = ['specs.c_topology', 'specs.c_registry', 'specs.c_dicts', 'specs.c_timeline', 'specs.c_emitter',
+SPEC_MODULES = ['specs.c_topology', 'specs.c_registry', 'specs.c_runfor', 'specs.c_dicts', 'specs.c_timeline', 'specs.c_emitter',
                 'specs.c_engine', 'specs.c_store', 'specs.c_process', 'specs.c_composer']
 
 
@@ -144,6 +144,10 @@ def leaf_none():
     return None
 
 
+def tree_rank(t):
+    return 1 + max([tree_rank(v) for v in t.values()] + [0]) if isinstance(t, dict) else 0
+
+
 def is_inf(x):
     return x == math.inf
 
@@ -156,14 +160,14 @@ NATIVE = dict(forall=_forall, exists=_forall, forall_range=forall_range, exists_
               forall_keys=forall_keys, implies=implies, iff=iff, is_node=is_node, is_leaf=is_leaf, is_list=is_list,
               has=has, child=child, tree_put=tree_put, tree_remove=tree_remove, is_none=is_none, some=some,
               lookup=lookup, map_put=map_put, map_remove=map_remove, list_len=list_len, list_item=list_item,
-              list2=list2, list_append=list_append, leaf_none=leaf_none, is_inf=is_inf, finite=finite,
+              list2=list2, list_append=list_append, leaf_none=leaf_none, is_inf=is_inf, finite=finite, tree_rank=tree_rank,
               ABSENT=None, EMPTY_NODE={}, math=math)
 
 
 def native_env():
     env = dict(NATIVE)
     for name, g in S.GHOSTS.items():
-        env[name] = g.fn
+        env[name] = getattr(g.fn, '__wrapped_native__', g.fn)
     return env
 
 
